@@ -10,17 +10,17 @@ CHECKS = {
     "C07": dict(
         category="fault_enumeration", design_ref="DESIGN.md 5/C07",
         technique="deterministic simulation with fault injection: seeded command sequences against simulated SG_IO/iSCSI bindings with injected status/sense/ioctl faults; per-command oracle from the fault delivered",
-        text="Seeded search over command sequences with status (all 256 bytes), sense and ioctl faults injected inside commands on both simulated transports, through direct execute and every facade method, raw sense on/off; the status x transport x path x raw sub-space is enumerated completely in the thorough tier. Evidence, not proof: sequences are sampled.",
+        text="Seeded search over command sequences with status (all 256 bytes), sense and ioctl faults injected inside commands (also two faults inside one call, also on the attach INQUIRY) on both simulated transports, through direct execute (fresh and re-executed command objects) and every facade method, raw sense on/off; the status x transport x path x raw sub-space is enumerated completely in the thorough tier. Evidence, not proof: sequences are sampled.",
         note="Trusts the stub bindings' contract (DESIGN 4.3) and the independent t10 sense decoder; on SG_IO a non-CC failure status is only required to raise some exception."),
     "C08": dict(
         category="fault_enumeration", design_ref="DESIGN.md 5/C08",
         technique="deterministic simulation with fault injection: CHECK CONDITION faults whose sense payloads sweep the response-code x key x ASC/ASCQ x length space, delivered through the simulated SG_IO/iSCSI bindings; independent SPC sense decoder as oracle",
-        text="Every payload is delivered as the sense of an injected CHECK CONDITION on a live simulated device and the resulting error is constructed, str()ed, print()ed and its key/ASC/ASCQ compared with an independent SPC decoder. The thorough tier enumerates all 65536 ASC/ASCQ pairs x 16 keys x 4 formats (4.2M payloads) and adds seeded payloads of every length 1-252; quick enumerates all pairs for one key per format.",
+        text="Every payload is delivered as the sense of an injected CHECK CONDITION on a live simulated device and the resulting error is constructed, str()ed, print()ed (also with the print_data option), its key/ASC/ASCQ compared with an independent SPC decoder, and kept errors are judged again after later errors were built. The thorough tier enumerates all 65536 ASC/ASCQ pairs x 16 keys x 4 formats (4.2M payloads) and adds seeded payloads of every length 1-252; quick enumerates all pairs for one key per format.",
         note="Search dimension is the fault payload, not a schedule (stated in DESIGN 2). T10 wording is demanded only for 41 well-known codes; sgio stub truncates sense to the 32 bytes the library requests."),
     "C12": dict(
         category="exploration", design_ref="DESIGN.md 5/C12",
         technique="deterministic simulation: seeded block-command histories against an independently written sparse-disk target behind simulated SG_IO and iSCSI bindings; reference-model check after every command plus transport differential; status-fault configuration separate",
-        text="Seeded histories (3-40 commands, boundary-biased LBAs up to 2**64-2, five block sizes, unique payloads) are executed through the real facade, command classes and both device classes against a target that decodes CDBs from SBC; after every command the read data, the target's disk and the reference model must agree and the two transports must behave identically. Sampling, not proof.",
+        text="Seeded histories (3-40 commands, boundary-biased LBAs up to 2**64-2, five block sizes, unique payloads) are executed through the real facade, command classes and both device classes against a target that decodes CDBs from SBC; after every command the read data, the target's disk, the arguments the target decoded and the reference model must agree and the two transports must behave identically (one facade per device or one facade re-pointed between them; fixed or descriptor format sense from the target; a faulted command must not look done). Sampling, not proof.",
         note="Trusts t10/targets.BlockLU and the stub bindings (iSCSI stub moves data according to the Task's direction/length, as on the wire). Transfer lengths above 2**17 blocks not explored."),
     "C15": dict(
         category="exploration", design_ref="DESIGN.md 5/C15",
@@ -35,12 +35,12 @@ CHECKS = {
     "C09": dict(
         category="exploration", design_ref="DESIGN.md 5/C09, 4.6",
         technique="deterministic simulation: seeded baton-passing thread scheduler (sys.settrace line/call/return, optionally bytecode, pre-emption points inside pyscsi; random / PCT / boundary strategies) over programs of 1-3 caller threads, plus sequential histories; oracle = each operation's outcome equals the same operation run alone in a pristine process",
-        text="Real threads, but which thread executes each source line of the library is the simulator's seeded decision, so every interleaving is replayable from one integer and the recorded switch list is minimised (ddmin) and replayed in a fresh process. Each operation (construct any of 42 classes, static encode/decode, data-in decode / round trip, facade calls on a private device) is compared with a reference run of the same thread alone; objects held by a thread must be byte-identical at the end. All ordered class pairs are enumerated sequentially in the thorough tier.",
+        text="Real threads, but which thread executes each source line of the library is the simulator's seeded decision, so every interleaving is replayable from one integer and the recorded switch list is minimised (ddmin) and replayed in a fresh process. Each operation (construct any of 42 classes - also twice from the same argument objects -, static encode/decode of own and foreign CDBs, build_cdb twice, data-in decode / round trip incl. VPD 83h, facade calls on a private device) is compared with the same operation executed truly alone in its own pristine process; objects held by a thread must be byte-identical at the end. All ordered class pairs are enumerated sequentially in the thorough tier.",
         note="Line/call/return granularity (bytecode granularity in ~12% of runs), at most 3 threads, 8 ops per thread; threading.Lock/RLock are replaced by cooperative locks before import so a lock-based repair cannot deadlock the simulator."),
     "C13": dict(
         category="exploration", design_ref="DESIGN.md 5/C13",
         technique="deterministic simulation: one facade call per run against a scripted recording target behind a plain device object, SG_IO and iSCSI; exactly-once / identity / ordering checked over the recorded seam history; documented argument names read from the docstrings at check time",
-        text="Every facade method x every command set that defines it x subsets of the documented optional arguments x boundary-biased values x device-provided data with a per-call nonce. The history of the call at the seam must show exactly one hand-over of the very command object and buffers the caller gets back, the attached set's opcode/service action, every supplied argument and every omitted default at the field the standard assigns, and a result equal to the class's own decode of the final buffer (and different from the decode of the untouched buffer). Enumerates method x set x {none, each, all optionals}; the rest is seeded sampling.",
+        text="Histories of 1-4 facade calls on one re-attached facade: every facade method x every command set that defines it x subsets of the documented optional arguments x boundary-biased values x device-provided data with a per-call nonce; a fifth of the calls on real device classes is failed by the device and must still be handed over exactly once. The history of the call at the seam must show exactly one hand-over of the very command object and buffers the caller gets back, the attached set's opcode/service action, every supplied argument and every omitted default at the field the standard assigns, and a result equal to the class's own decode of the final buffer (and different from the decode of the untouched buffer). Enumerates method x set x {none, each, all optionals}; the rest is seeded sampling.",
         note="Layouts and response encoders are the independent t10/ transcription; the opcode is compared with the attached set's own entry (C14 is not claimed); decoded values are not judged (C04)."),
     "C17": dict(
         category="exploration", design_ref="DESIGN.md 5/C17",
